@@ -630,6 +630,14 @@ pub async fn run(a: &Args) -> Report {
         e["user"] = json!([{"name": "short", "password": k16}]);
         bad.push(("user-key-16-bytes-for-a-32-byte-cipher", e));
     }
+    // a user table with a cipher that has no identity header (SIP023 defines it for the 2022 AES ciphers only): the server
+    // could not tell users apart - serving whoever holds the server key would be a silent fallback to single-user mode
+    for (name, method) in [("user-table-with-2022-blake3-chacha20-poly1305", refimpl::ss::Method::B3ChaCha20Poly1305), ("user-table-with-2022-blake3-chacha8-poly1305", refimpl::ss::Method::B3ChaCha8Poly1305), ("user-table-with-aes-256-gcm", refimpl::ss::Method::Aes256Gcm)] {
+        let c = Cfg::random(&mut rng, Proto::Ss(method), 0);
+        let mut e = c.server_entry("127.0.0.1", p(), "tcp_and_udp");
+        e["user"] = json!([{"name": "alice", "password": refimpl::crypto::b64_encode(&rng.bytes(32))}, {"name": "bob", "password": refimpl::crypto::b64_encode(&rng.bytes(32))}]);
+        bad.push((name, e));
+    }
     {
         let v = Cfg::random(&mut rng, Proto::Vmess(3), 1);
         let mut e = v.server_entry("127.0.0.1", p(), "tcp");
